@@ -990,6 +990,34 @@ impl Property for C05 {
     }
 
     fn extra_evidence(&self, _env: &Env, _tier: Tier) -> Value {
-        json!({"shared_state_audit": crate::selftest::audit_report()})
+        // engine E2 (Miri) runs concurrently (started by bin/check); wait for its summary
+        let mut e2 = json!({"ran": false, "why": "engine E2 not started (QSIM_E2_SUMMARY unset: qsim was run directly or with QSIM_NO_E2)"});
+        if let Ok(path) = std::env::var("QSIM_E2_SUMMARY") {
+            let pid = std::env::var("QSIM_E2_WAIT_PID").ok();
+            let t0 = std::time::Instant::now();
+            loop {
+                if let Ok(txt) = std::fs::read_to_string(&path) {
+                    if let Ok(v) = serde_json::from_str::<Value>(&txt) {
+                        e2 = json!({"ran": true, "summary": v});
+                        break;
+                    }
+                }
+                let alive = pid.as_ref().map(|p| std::path::Path::new(&format!("/proc/{p}")).exists()).unwrap_or(false);
+                if !alive || t0.elapsed().as_secs() > 4 * 3600 {
+                    // one last look: the file is written just before the process exits
+                    std::thread::sleep(std::time::Duration::from_millis(300));
+                    if let Ok(txt) = std::fs::read_to_string(&path) {
+                        if let Ok(v) = serde_json::from_str::<Value>(&txt) {
+                            e2 = json!({"ran": true, "summary": v});
+                            break;
+                        }
+                    }
+                    e2 = json!({"ran": false, "why": "engine E2 ended without a summary (see the e2 output printed after the native engine)"});
+                    break;
+                }
+                std::thread::sleep(std::time::Duration::from_millis(500));
+            }
+        }
+        json!({"shared_state_audit": crate::selftest::audit_report(), "engine_e2_miri": e2})
     }
 }
